@@ -34,6 +34,8 @@ def shards(tier, seed):
     out.append({"id": "attached", "cmd": None, "attached": True, "reps": 1 if tier == "quick" else 12})
     out.append({"id": "own-tables", "cmd": None, "own_tables": True, "reps": 1 if tier == "quick" else 12})
     out.append({"id": "transport", "cmd": None, "transport": True, "reps": 2 if tier == "quick" else 40})
+    for i in range(2 if tier == "quick" else 16):
+        out.append({"id": "application%d" % i, "cmd": None, "application": True, "sessions": 60 if tier == "quick" else 1200})
     return out
 
 
@@ -254,7 +256,174 @@ def run_sessions(shard, ctx):
         ctx.count("sessions")
 
 
+def run_application(shard, ctx):
+    """what an application does with a disk: attach, read the capacity and the block limits, then address blocks *derived from
+    those answers* (the last blocks, ranges that straddle the end, whole and partial provisioning granules, a count of zero),
+    ask for the provisioning status of blocks inside an extent, and carry on after the conditions initiators are known to act
+    on (ILLEGAL REQUEST for a flag, unit attentions, recovered errors). Against the conformant target model, on both
+    transports. Every call: one command at the target, whose fields (decoded by the reference) are the arguments given; what is
+    returned for GET LBA STATUS / READ CAPACITY is what the unit sent."""
+    import sys
+
+    from vmon.sim import devnode, install
+
+    install.install_fakes()  # before anything of pyscsi is imported
+    from pyscsi.pyscsi.scsi import SCSI
+    from pyscsi.utils import init_device
+
+    from vmon.sim.target import Target
+    from vmon.spec import sense as SN
+
+    sg, isc = sys.modules["sgio"], sys.modules["iscsi"]
+    rng = ctx.rng()
+    triples = [(5, 0x24, 0), (5, 0x24, 0), (5, 0x20, 0), (5, 0x21, 0), (5, 0x26, 0), (6, 0x29, 0), (6, 0x2A, 9), (6, 0x3F, 3), (6, 0x3F, 0xE), (6, 0x28, 0),
+               (1, 0x17, 0), (1, 0x0B, 1), (2, 4, 1), (0xB, 0x47, 3), (3, 0x11, 0)]
+    for sess in range(shard["sessions"]):
+        bs = rng.choice([512, 512, 4096])
+        nblocks = rng.choice([5000, 70001, (1 << 21) + 5, (1 << 32) + 0x3039, rng.randint(1000, 1 << 22)])
+        tgt = Target(0, 0, bs, nblocks)
+        g = rng.choice([1, 8, 16, 64, 2048])
+        tgt.granule = g
+        tgt.block_limits = {"opt_unmap_gran": g, "ugavalid": 1, "unmap_gran_alignment": rng.choice([0, 0, g // 2]) if g > 1 else 0, "max_unmap_lba_count": 0xFFFFFFFF, "max_unmap_bd_count": 64,
+                            "max_ws_len": rng.choice([0, 0xFFFF, 1 << 22]), "max_xfer_len": 0xFFFF, "opt_xfer_len": 128, "wsnz": rng.getrandbits(1)}
+        transport = rng.choice(["sgio", "iscsi"])
+        sg.handler = isc.handler = tgt.handle
+        if transport == "sgio":
+            dev = init_device(devnode.new_node(), read_write=True)
+        else:
+            dev = init_device("iscsi://192.0.2.1:3260/iqn.2003-01.org.example:disk/%d" % rng.choice([0, 1, 7]), initiator_name="iqn.2003-01.org.example:me")
+        hist = []
+        wit = {"transport": transport, "blocks": nblocks, "block_size": bs, "granule": g, "history": hist}
+        try:
+            s = SCSI(dev, bs)
+        except Exception as e:  # noqa: BLE001
+            ctx.fail("C13:application.attach_raises.%s" % type(e).__name__, "attach raised %r" % e, wit, exc=e)
+            continue
+        last = nblocks - 1
+
+        def near_end():
+            return rng.choice([last, last - 1, last - 2, last - g, last - g + 1, max(0, last - rng.randint(1, 300)), nblocks, nblocks + 1])
+
+        def somewhere():
+            r = rng.random()
+            if r < 0.4:
+                return max(0, near_end())
+            if r < 0.7:
+                return rng.randrange(0, nblocks)
+            return rng.choice([0, 1, g, g + 1, 3 * g - 1, 1003, 1008]) % nblocks
+
+        def call(method, kw, expect_fields, cls_name):
+            """one facade call; returns the command or None"""
+            n0 = len(tgt.log)
+            inject = rng.random() < 0.18
+            cond = None
+            if inject:
+                cond = rng.choice(triples)
+                rc = rng.choice([0x70, 0x72])
+                sb = bytearray(SN.build(rc, 0, cond[0], cond[1], cond[2], 18 if rc == 0x70 else 8))
+                if rc == 0x70 and rng.random() < 0.5:
+                    sb[15], sb[16], sb[17] = 0xC0 | rng.randrange(8), 0, rng.choice([0, 1, 2, 6, 10])  # field pointer
+                tgt.faults[tgt.n] = (2, bytes(sb))
+            hist.append((method, {k: (v if not isinstance(v, (bytes, bytearray)) else "%d bytes" % len(v)) for k, v in kw.items()}, cond))
+            del hist[:-8]
+            ret = exc = None
+            try:
+                ret = getattr(s, method)(**kw)
+            except Exception as e:  # noqa: BLE001
+                exc = e
+            recs = tgt.log[n0:]
+            ctx.count("application_calls")
+            if len(recs) != 1:
+                ctx.fail("C13:application.execute_count_%d" % min(len(recs), 3), "%s(%r)%s reached the unit %d times: %s"
+                         % (method, hist[-1][1], " answered with CHECK CONDITION %r" % (cond,) if cond else "", len(recs), [r.get("name") for r in recs]), wit)
+                return None
+            rec = recs[0]
+            if rec.get("name") != cls_name:
+                ctx.fail("C13:application.other_command.%s" % method, "%s sent %s" % (method, rec.get("name")), wit)
+                return None
+            got = rec.get("fields", {})
+            for k, v in expect_fields.items():
+                if got.get(k) != v:
+                    ctx.fail("C13:application.cdb.%s.%s" % (method, k), "%s(%r) after %r: the unit received %s=%r, the caller said %r" % (method, hist[-1][1], [h[0] for h in hist[:-1]][-4:], k, got.get(k), v),
+                             dict(wit, cdb=rec["cdb"].hex()))
+            if inject:
+                ctx.count("application_calls_answered_with_a_condition")
+                if exc is None or not isinstance(exc, dev.CheckCondition):
+                    ctx.fail("C13:application.condition_not_raised.%s" % method, "%s answered with CHECK CONDITION %r: the caller got %s" % (method, cond, "a normal return" if exc is None else repr(exc)[:80]), wit)
+                return None
+            if exc is not None:
+                # the unit's own refusals (beyond the end, unsupported): reported as they are
+                if not isinstance(exc, dev.CheckCondition):
+                    ctx.fail("C13:application.raises.%s.%s" % (method, type(exc).__name__), "%s raised %r" % (method, exc), wit, exc=exc)
+                return None
+            return ret
+
+        for step in range(rng.randint(6, 30)):
+            kind = rng.choice(["cap16", "cap10", "limits", "read", "write", "ws", "ws", "status", "sync", "inq"])
+            if kind == "cap16":
+                r = call("readcapacity16", {}, {}, "ReadCapacity16")
+                if r is not None and (r.result.get("returned_lba"), r.result.get("block_length")) != (last, bs):
+                    ctx.fail("C13:application.result.readcapacity16", "READ CAPACITY(16) reports %r, the unit has %d blocks of %d" % (r.result, nblocks, bs), wit)
+            elif kind == "cap10":
+                r = call("readcapacity10", {}, {}, "ReadCapacity10")
+                if r is not None and (r.result.get("returned_lba"), r.result.get("block_length")) != (min(last, 0xFFFFFFFF), bs):
+                    ctx.fail("C13:application.result.readcapacity10", "READ CAPACITY(10) reports %r, the unit has %d blocks of %d" % (r.result, nblocks, bs), wit)
+            elif kind == "limits":
+                r = call("inquiry", {"evpd": 1, "page_code": 0xB0, "alloclen": 64}, {"evpd": 1, "page_code": 0xB0, "alloc": 64}, "Inquiry")
+            elif kind == "inq":
+                call("inquiry", {}, {"evpd": 0, "page_code": 0}, "Inquiry")
+            elif kind in ("read", "write"):
+                w = rng.choice([10, 12, 16])
+                lba = somewhere()
+                if w != 16:
+                    lba = min(lba, 0xFFFFFFFF)
+                tl = rng.choice([0, 1, 2, 8, g, g + 1, max(0, nblocks - lba), max(0, nblocks - lba) + 1, max(0, nblocks - lba) + 7, rng.randint(1, 40)])
+                tl = min(tl, 300, 0xFFFF)
+                flags = {"dpo": rng.getrandbits(1), "fua": rng.getrandbits(1), "group": rng.randrange(32)}
+                if kind == "read":
+                    flags["rdprotect"] = 0
+                    call("read%d" % w, dict(lba=lba, tl=tl, **flags), dict(lba=lba, tl=tl, **flags), "Read%d" % w)
+                else:
+                    flags["wrprotect"] = 0
+                    call("write%d" % w, dict(lba=lba, tl=tl, data=bytearray(tl * bs), **flags), dict(lba=lba, tl=tl, **flags), "Write%d" % w)
+            elif kind == "ws":
+                w = rng.choice([10, 16])
+                lba = somewhere()
+                if w == 10:
+                    lba = min(lba, 0xFFFFFFFF)
+                nb = rng.choice([0, 0, 1, g, 2 * g, 21, g + 5, 3 * g - 1, max(0, nblocks - lba), rng.randint(1, 5000)])
+                nb = min(nb, 0xFFFF if w == 10 else 1 << 17)
+                flags = {"unmap": rng.choice([0, 1, 1]), "anchor": rng.choice([0, 0, 1]), "group": rng.randrange(32), "wrprotect": 0}
+                kw = dict(lba=lba, nb=nb, data=bytearray(bs), **flags)
+                call("writesame%d" % w, kw, dict(lba=lba, nb=nb, **flags), "WriteSame%d" % w)
+            elif kind == "status":
+                lba = somewhere() % nblocks
+                r = call("getlbastatus", {"lba": lba, "alloclen": 8 + 16 * rng.choice([1, 2, 4])}, {"lba": lba}, "GetLBAStatus")
+                if r is not None:
+                    start = lba - lba % g
+                    lbas = r.result.get("lbas") or []
+                    want = (start, min(g, nblocks - start))
+                    if not lbas or (lbas[0].get("lba"), lbas[0].get("num_blocks")) != want:
+                        ctx.fail("C13:application.result.getlbastatus", "GET LBA STATUS for block %d: the unit's first descriptor is (lba %d, %d blocks), the caller is told %r"
+                                 % (lba, want[0], want[1], lbas[:1]), wit)
+                    ctx.count("extents_containing_the_requested_block")
+            elif kind == "sync":
+                w = rng.choice([10, 16])
+                lba = min(somewhere(), 0xFFFFFFFF if w == 10 else (1 << 64) - 1)
+                nbk = rng.choice([0, 1, g, rng.randint(0, 0xFFFF)])
+                call("synchronizecache%d" % w, {"lba": lba, "numblks": nbk}, {"lba": lba, "numblks": nbk}, "SynchronizeCache%d" % w)
+        try:
+            dev.close()
+        except Exception:  # noqa: BLE001
+            pass
+        ctx.case(("application", transport, nblocks, bs, g, tuple(h[0] for h in hist)), True, sample={"transport": transport, "blocks": nblocks, "granule": g, "calls": [h[0] for h in hist][:8]} if ctx.want_sample() else None)
+        ctx.count("application_sessions")
+
+
+
 def run(shard, ctx):
+    if shard.get("application"):
+        return run_application(shard, ctx)
     if shard.get("transport"):
         from vmon.sim import install
 
